@@ -5,7 +5,7 @@
    from the Go source on every run (coq/Gen/). *)
 From Coq Require Import ZArith Bool String List.
 From Ice Require Import Model.Wrap Model.PrioSpec Model.PrioModel Model.Foundation Gen.Consts Gen.Prio Gen.Names
-     Proofs.PrioProofs Proofs.FoundationProofs.
+     Proofs.PrioProofs Proofs.PrioInjective Proofs.FoundationProofs.
 Local Open Scope Z_scope.
 
 (* priority = 2^24*tp + 2^8*lp + (256 - component) with the stated tp / lp tables *)
@@ -62,6 +62,30 @@ Theorem C17_pair_order_agrees : forall l1 r1 l2 r2,
   (PairPriority false 0 false r1 l1 <? PairPriority false 0 false r2 l2).
 Proof. exact pair_order_agrees. Qed.
 Print Assumptions C17_pair_order_agrees.
+
+(* "both sides order pairs identically" is a STRICT order on distinct priority combinations:
+   with both candidate priorities in the valid range 0..2^31-1 (C17_range) the pair priority
+   determines the local and the remote priority, so two pairs tie only when both coincide ... *)
+Theorem C17_pair_priority_injective_on_valid_range : forall ctl l r l' r',
+  0 <= l < 2 ^ 31 -> 0 <= r < 2 ^ 31 -> 0 <= l' < 2 ^ 31 -> 0 <= r' < 2 ^ 31 ->
+  PairPriority false 0 ctl l r = PairPriority false 0 ctl l' r' -> l = l' /\ r = r'.
+Proof. exact pair_priority_injective. Qed.
+Print Assumptions C17_pair_priority_injective_on_valid_range.
+
+Theorem C17_pair_priority_no_ties : forall ctl l r l' r',
+  0 <= l < 2 ^ 31 -> 0 <= r < 2 ^ 31 -> 0 <= l' < 2 ^ 31 -> 0 <= r' < 2 ^ 31 ->
+  (l, r) <> (l', r') ->
+  PairPriority false 0 ctl l r < PairPriority false 0 ctl l' r' \/
+  PairPriority false 0 ctl l' r' < PairPriority false 0 ctl l r.
+Proof. exact pair_priority_no_ties. Qed.
+Print Assumptions C17_pair_priority_no_ties.
+
+(* ... and the range is needed: as plain uint32 values (2^31, 0) and (1, 1) collide.  This is why
+   C17_range (priority <= 2^31-1 for every configuration) matters for the pair order. *)
+Theorem C17_pair_priority_collision_outside_range :
+  PairPriority false 0 true (2 ^ 31) 0 = PairPriority false 0 true 1 1 /\ (2 ^ 31, 0) <> (1, 1).
+Proof. exact pair_priority_collision_outside_range. Qed.
+Print Assumptions C17_pair_priority_collision_outside_range.
 
 (* foundations coincide exactly, up to checksum collisions, for equal (type, address, network type) *)
 Theorem C17_foundation : forall (checksum : string -> N) ty ty' addr addr' nt nt',
